@@ -77,6 +77,7 @@ DEFAULT_PROFILE: Dict[str, Any] = {
     'imports_last': False,    # every module defines first and imports at the bottom (so a module that is read while half built
                               # - import cycles - has already defined everything it defines itself)
     'back_edge_bottom': False,  # cyclic worlds: the imports that close a cycle sit at the bottom of the module, after every definition
+    'inner_defs': 0.0,        # probability per function of local definitions in its body (plain or async function): never documented
     'var_ann': 0.0,           # probability that a variable is annotated with a class visible in its scope
     'attr_pool': 0.0,         # probability per class that its attributes come from a small name pool, as class variable,
                               # annotated declaration or instance variable set in __init__ (so that overriding chains arise)
@@ -375,6 +376,9 @@ class _Gen:
         # an explicitly empty docstring: Python's lookup stops there (``__doc__ == ''``), the member counts as undocumented
         emptydoc = bool(self.p['method_pool'] and outer is not None and not nodoc and rng.chance(0.2))
         st = {'k': 'func', 'id': fid_, 'name': name, 'deco': deco, 'ann': {}, 'ret': None, 'nodoc': nodoc, 'emptydoc': emptydoc}
+        if self.p.get('inner_defs', 0) and rng.chance(self.p['inner_defs']):
+            st['inner'] = rng.choice(['def', 'class', 'both', 'nested-block'])
+            st['is_async'] = rng.chance(0.5) and deco in (None, 'staticmethod', 'classmethod')
         kind = 'func' if outer is None else {None: 'method', 'classmethod': 'classmethod',
                                              'staticmethod': 'staticmethod', 'property': 'property'}[deco]
         self.defs[fid_] = {'kind': kind, 'name': name, 'module': mod, 'outer': outer, 'nodoc': nodoc or emptydoc, 'emptydoc': emptydoc}
@@ -894,6 +898,17 @@ class _Gen:
                     d = self.defs[i]
                     direct = all(om == d['module'] and on == d['name'] and self._routes.get((om, on)) == 'local'
                                  for om, on in origins)
+                    if not direct and not self.p['cyclic']:
+                        # (acyclic worlds only: in an import cycle the intermediate module may not have the name yet)
+                        # one intermediate module that itself imported the object straight from its defining module is
+                        # still within what pydoctor follows (one alias hop): count it as direct; longer chains are not
+                        def one_hop(om: str, on: str) -> bool:
+                            if om == d['module'] and on == d['name'] and self._routes.get((om, on)) == 'local':
+                                return True
+                            o2 = self._origins.get((om, on)) or ([self._origin[(om, on)]] if (om, on) in self._origin else [])
+                            return bool(o2) and self._routes.get((om, on)) in ('from', 'from-as', 'star') and all(
+                                a == d['module'] and b_ == d['name'] and self._routes.get((a, b_)) == 'local' for a, b_ in o2)
+                        direct = all(one_hop(om, on) for om, on in origins)
                     self.reexport_direct[i] = self.reexport_direct.get(i, True) and direct
             if p['method_alias_reexport'] > 0:
                 for n, b in ns.items():
@@ -1088,7 +1103,7 @@ def render_stmt(st: Dict[str, Any], indent: str, out: List[str], in_class: bool 
         for pn in st.get('params', []):
             params.append(pn)
         ret = f' -> {_q(st["ret"])}' if st.get('ret') else ''
-        out.append(f'{indent}def {st["name"]}({", ".join(params)}){ret}:\n')
+        out.append(f'{indent}{"async " if st.get("is_async") else ""}def {st["name"]}({", ".join(params)}){ret}:\n')
         if st.get('emptydoc'):
             out.append(f'{indent}    """"""\n')
         elif not st.get('nodoc'):
@@ -1096,6 +1111,17 @@ def render_stmt(st: Dict[str, Any], indent: str, out: List[str], in_class: bool 
         for sa in st.get('selfattrs', []):
             out.append(f'{indent}    self.{sa["name"]} = "M{sa["id"]}M"\n')
             out.append(_doc(sa['id'], '', indent + '    '))
+        inner = st.get('inner')
+        if inner:
+            # local definitions: they are not part of the API and must not be documented
+            pre = indent + '    '
+            if inner == 'nested-block':
+                out.append(f'{pre}if True:\n')
+                pre += '    '
+            if inner in ('def', 'both', 'nested-block'):
+                out.append(f'{pre}def local_helper(x):\n{pre}    \"\"\"Local helper.\"\"\"\n{pre}    return x\n')
+            if inner in ('class', 'both', 'nested-block'):
+                out.append(f'{pre}class LocalThing:\n{pre}    \"\"\"Local class.\"\"\"\n{pre}    def run(self):\n{pre}        return 1\n')
         out.append(f'{indent}    return None\n')
     elif k == 'var':
         ann = f': {_q(st["ann"])}' if st.get('ann') else ''
